@@ -5,6 +5,7 @@ import (
 	"go/constant"
 	"go/token"
 	"go/types"
+	"reflect"
 	"sort"
 	"strings"
 
@@ -21,6 +22,9 @@ import (
 //	builtin: "builtin:len"
 //	dynamic: "dynamic"
 func calleeName(c ssa.CallInstruction) string {
+	if c == nil || reflect.ValueOf(c).IsNil() {
+		return "<no call>"
+	}
 	cc := c.Common()
 	if cc.IsInvoke() {
 		recv := cc.Value.Type()
